@@ -445,7 +445,7 @@ PROPS["C20"] = dict(
          "diagnostic on stderr; a signal (uncaught exception, assert, SEGV) or sanitizer report is a violation. "
          "Non-trivial: every api case, every cli case with arguments. Distinct: hash of the option record / argv."
          " Third session: every statistic read after every solve; grid files with 12, 24, 20 angular divisions; second run with paraview on (scratch directory), setup() writing the grid files, and a setup() that must be rejected before the real setup() or between setup() and solve(); half of the parser-acceptable records through setParameters(argc, argv); command-line grammar with --paraview, --write_grid_file, --load_grid_file and the file name options.",
-    technique="property-based testing (rapidcheck) under ASan/UBSan with a differential uninitialised-memory detector (two memory patterns) and a grammar-based command-line fuzzer",
+    technique="property-based testing (rapidcheck) under ASan/UBSan with a differential uninitialised-memory detector (two memory patterns) and a grammar-based command-line fuzzer whose command lines are also run under valgrind memcheck",
     level_text="Generated option records and command lines exercise the public API and the shipped driver under sanitizers; "
                "the clean-rejection-or-clean-run contract and the well-definedness of every reported statistic are checked "
                "per case. Exploration.",
